@@ -104,7 +104,7 @@ def handle (sess : Sess) (rep : Report) (ln : Nat) (toks : List String) (obs : S
     | _, _ => (sess, rep.msg s!"BAD line={ln}")
   | some "payload" =>
     let o := args (obs.splitOn " ")
-    let rep := rep.bump "pb.payload"
+    let rep := rep.bump (if arg a "later" == "1" then "pb.payload_inspected_again_later" else "pb.payload")
     (sess, if arg o "hash" == "ok" && arg o "len" == arg a "n" then rep else fail rep ln "payload_hash")
   | some "flags" =>
     let hs (k : String) := hexToString (arg a k)
